@@ -56,7 +56,6 @@ Print Assumptions C01_header_checks_total.
 (* message checks (C16) *)
 Theorem C01_message_checks_total : forall cfg cat,
   Messages.c_maxd cfg = 0%N -> Messages.ctl_complete (Messages.c_ctlnames cfg) ->
-  (forall e, In e cat -> Messages.scalar_text (Messages.me_msgid e) /\ Messages.scalar_text (Messages.me_msgstr e)) ->
   exists ds, Messages.check_messages cfg cat = Ok ds.
 Proof. exact C16.C16_no_crash. Qed.
 Print Assumptions C01_message_checks_total.
